@@ -443,6 +443,72 @@ pub fn run(ctx: &mut Ctx) {
         if broken {
             continue;
         }
+        // large-table phase: more than one full batch of the columnar aggregate kernels, with
+        // values whose partial sums leave the 64-bit range
+        if case % 4 == 0 {
+            let mut b = Session::new();
+            b.record = false;
+            b.must("CREATE TABLE big (id INTEGER PRIMARY KEY, v BIGINT, w INTEGER)");
+            let n = rng.range(1030, 2300);
+            let pool: [i128; 7] = [9007199254740992, 4611686018427387904, -4611686018427387904, 1152921504606846976, 3, -7, 2305843009213693952];
+            let bias = rng.below(3);
+            let mut vals: Vec<(Option<i128>, i128)> = vec![];
+            let mut id = 0;
+            while id < n {
+                let mut rows = vec![];
+                for _ in 0..200.min(n - id) {
+                    id += 1;
+                    let v = if rng.chance(1, 20) { None } else if bias == 0 { Some(pool[rng.usize(7)]) } else if bias == 1 { Some(pool[rng.usize(2)]) } else { Some(pool[3 + rng.usize(4)]) };
+                    let w = rng.range(0, 3) as i128;
+                    vals.push((v, w));
+                    rows.push(format!("({}, {}, {})", id, v.map_or("NULL".to_string(), |x| x.to_string()), w));
+                }
+                // negative literals are not accepted in VALUES: insert through SELECT ... UNION ALL
+                let sel: Vec<String> = rows.iter().map(|r| format!("SELECT {}", r.trim_matches(|c| c == '(' || c == ')'))).collect();
+                b.must(&format!("INSERT INTO big {}", sel.join(" UNION ALL ")));
+            }
+            b.record = true;
+            for (pred, keep) in [("", 9i128), (" WHERE w = 1", 1), (" WHERE w >= 1", -1)] {
+                let sel: Vec<i128> = vals.iter().filter(|(_, w)| keep == 9 || (keep == 1 && *w == 1) || (keep == -1 && *w >= 1)).filter_map(|(v, _)| *v).collect();
+                let exact: i128 = sel.iter().sum();
+                // COUNT(*) keeps the statement on the columnar path (COUNT(col) does not)
+                let sql = format!("SELECT SUM(v), COUNT(*), AVG(v) FROM big{}", pred);
+                let out = b.exec(&sql);
+                ctx.eval();
+                match &out {
+                    Outcome::Panic(p) => {
+                        let cls = panic_class(p);
+                        let sig = if cls.contains("overflow") { format!("panic:{}", cls) } else { format!("panic:aggregate-large-table|{}", cls) };
+                        ctx.violation(case, sig, json!({"statement": sql, "rows": n, "detail": p, "columnar": b.hit("columnar")}));
+                        break;
+                    }
+                    Outcome::Rows(r) if !r.is_empty() => {
+                        let ok_sum = match &r[0][0] {
+                            Canon::Null => sel.is_empty() || !(I64MIN..=I64MAX).contains(&exact),
+                            g => judge(g, Some((exact, false))).is_ok(),
+                        };
+                        let all = vals.iter().filter(|(_, w)| keep == 9 || (keep == 1 && *w == 1) || (keep == -1 && *w >= 1)).count();
+                        let ok_count = canon_int(&r[0][1]) == Some(all as i128);
+                        let ok_avg = match (&r[0][2], sel.is_empty()) {
+                            (Canon::Null, _) => true,
+                            (g, false) => g.as_f64().map_or(false, |f| {
+                                let e = exact as f64 / sel.len() as f64;
+                                (f - e).abs() <= e.abs() * 1e-9 + 1e-6
+                            }),
+                            _ => false,
+                        };
+                        if !(ok_sum && ok_count && ok_avg) {
+                            ctx.violation(case, format!("wrong-aggregate:large-table|{}", if !ok_sum { "sum" } else if !ok_count { "count" } else { "avg" }), json!({"statement": sql, "rows": n, "engine": crate::core::canon::show_rows(r, 3), "exact_sum": exact.to_string(), "count": sel.len(), "columnar": b.hit("columnar")}));
+                            break;
+                        }
+                        ctx.nontrivial(format!("aggregate-large-table|{}|{}", if b.hit("columnar") { "columnar" } else { "row" }, if (I64MIN..=I64MAX).contains(&exact) { "sum-in-range" } else { "sum-out-of-range" }));
+                    }
+                    _ => {
+                        ctx.nontrivial("aggregate-large-table|error".to_string());
+                    }
+                }
+            }
+        }
         // second phase: generated multi-table queries (joins, subqueries, aggregates, set
         // operations) whose integer literals are replaced by boundary values
         let tables = crate::gen::build::gen_tables(&mut rng, 2, 6);
